@@ -306,7 +306,12 @@ func handleViolation(t *testing.T, env *ShardEnv, sc *Scenario, w *World, runner
 		return ViolationReport{Property: env.Prop, Signature: sig, Detail: w.viol.Detail + " [not reproducible in a fresh process: depends on state left by earlier runs in this process]", Seed: sc.Seed, OpsBefore: orig, OpsAfter: orig}
 	}
 	// 2. shrink, re-record, confirm the shrunk file too
-	small := Shrink(t, sc, sig, runner, 400)
+	shrinkBudget := 400
+	if v := os.Getenv("VERIF_SHRINK_TRIES"); v != "" {
+		// development aid (regression sweeps over many seeded changes): fewer shrink attempts
+		fmt.Sscanf(v, "%d", &shrinkBudget)
+	}
+	small := Shrink(t, sc, sig, runner, shrinkBudget)
 	small.Tape = nil
 	fw := runner(t, small)
 	if fw.viol != nil && fw.viol.Sig == sig {
